@@ -195,7 +195,7 @@ def path(J, ctx, job):
 
 def run_job(job):
     J = Job(job)
-    r = run_paths(J, lambda ctx: path(J, ctx, job), max_paths=50)
+    r = run_paths(J, lambda ctx: path(J, ctx, job), max_paths=50, timeout_ms=400000 if job.get("tier") == "thorough" else 90000)
     if r["vacuity"] is None:
         r["vacuity"] = bool(J.extra.get("paths_match") or J.extra.get("paths_none"))
     return r
